@@ -544,3 +544,72 @@ mutant("url-legacy-segmentation-order", "C16", "cspuz/puzzle/util.py", """    s 
             s.append(1 if block_id[y][x] != block_id[y][x + 1] else 0)
     ret = convert_binary_seq(s)""", "URL-LEG")
 variant("url-named-fields", "C16", SER, 'return f"{prefix}{puzzle}/{width}/{height}/{serialized}"', 'return "{}{}/{w}/{h}/{}".format(prefix, puzzle, serialized, w=width, h=height)')
+
+# ---- C17 ---------------------------------------------------------------------------------------
+YAJ = "cspuz/puzzle/yajilin.py"
+mutant("exc-hexint-no-eof", "C17", SER, """    ) -> Optional[Tuple[int, List[int]]]:
+        if idx == len(data):
+            return None
+        c = data[idx]
+        if c == "-":""", """    ) -> Optional[Tuple[int, List[int]]]:
+        c = data[idx]
+        if c == "-":""", "EXC-1")
+mutant("exc-hexint-unvalidated", "C17", SER, "            if idx + 3 > len(data) or not _is_hex(data[idx + 1 : idx + 3]):", "            if idx + 3 > len(data):", "EXC-6", "the original defect")
+mutant("exc-hexint-short-bound", "C17", SER, "            if idx + 4 > len(data) or not _is_hex(data[idx + 1 : idx + 4]):", "            if idx + 3 > len(data) or not _is_hex(data[idx + 1 : idx + 4]):", "EXC-7")
+mutant("exc-decint-no-bound", "C17", SER, "        while idx + n_digits < len(data) and data[idx + n_digits].isdigit():", "        while data[idx + n_digits].isdigit():", "EXC-1")
+mutant("exc-yajilin-no-dir-check", "C17", YAJ, """        if dir not in "1234":
+            return None
+""", "", "EXC-2")
+mutant("exc-yajilin-eof", "C17", YAJ, "        if idx + 1 >= len(data):\n            return None\n        dir = data[idx]", "        if idx >= len(data):\n            return None\n        dir = data[idx]", "EXC-1")
+mutant("exc-new-assert", "C17", SER, """        ofs, rooms = rooms_res
+        rooms0 = rooms[0]""", """        ofs, rooms = rooms_res
+        assert ofs > 0
+        rooms0 = rooms[0]""", "EXC-3")
+mutant("exc-assert-match", "C17", SER, """    if m is None:
+        if allow_failure:
+            return None
+        raise ValueError("not a puzzle URL")""", """    if allow_failure and m is None:
+        return None
+    assert m is not None""", "EXC-3", "the original defect")
+mutant("exc-recursive-fill", "C17", SER, """            stack = [(y0, x0)]
+            while stack:
+                y, x = stack.pop()
+                if room_id[y][x] != -1:
+                    continue
+                room_id[y][x] = id
+                if y > 0 and not horizontal[y - 1][x]:
+                    stack.append((y - 1, x))""", """            stack = [(y0, x0)]
+            while stack:
+                y, x = stack.pop()
+                if room_id[y][x] != -1:
+                    continue
+                room_id[y][x] = id
+                if y > 0 and not horizontal[y - 1][x]:
+                    fill(y - 1, x, id)""", "EXC-4", "the original defect, partially")
+mutant("exc-grid-none-unpack", "C17", SER, """        tmp = seq_combinator.deserialize(env, data, idx)
+        if tmp is None:
+            return None
+        ofs, d = tmp""", """        tmp = seq_combinator.deserialize(env, data, idx)
+        ofs, d = tmp""", "EXC-7")
+mutant("exc-zero-size", "C17", SER, """    if height <= 0 or width <= 0:
+        raise ValueError("board size must be positive")
+""", "", "EXC-7")
+mutant("exc-rooms-fill-bound", "C17", SER, "                if y < height - 1 and not horizontal[y][x]:\n                    stack.append((y + 1, x))", "                if y < height and not horizontal[y][x]:\n                    stack.append((y + 1, x))", "EXC-7")
+variant("exc-guard-ge", "C17", SER, """    ) -> Optional[Tuple[int, List[int]]]:
+        if idx == len(data):
+            return None
+        c = data[idx]
+        if c == "-":""", """    ) -> Optional[Tuple[int, List[int]]]:
+        if idx >= len(data):
+            return None
+        c = data[idx]
+        if c == "-":""")
+variant("exc-yajilin-guard-order", "C17", YAJ, """        dir = data[idx]
+        if dir == "0":
+            return 2, ["??"]
+        if dir not in "1234":
+            return None""", """        dir = data[idx]
+        if dir not in "01234":
+            return None
+        if dir == "0":
+            return 2, ["??"]""")
